@@ -154,6 +154,13 @@ def check_chk(crate, rep, cfg):
                                 nxt = t3["dest"]["l"]
                             elif nm == "branch" and via_ok_or:
                                 ok = True
+                    if via_ok_or and nxt is not None and nxt == 0:
+                        ok = True       # the Result of ok_or* is the function's own result (returned as it is)
+                    if via_ok_or and nxt is not None and not ok:
+                        # ... or moved into the return place without being looked at
+                        for (b4, i4, dp4, rv4) in b.defs.get(0, []):
+                            if not dp4 and rv4["k"] == "use" and rv4["op"]["k"] in ("copy", "move") and not rv4["op"]["pl"]["p"] and rv4["op"]["pl"]["l"] == nxt:
+                                ok = True
                     if nxt is None or ok:
                         break
                     cur, hops = nxt, hops + 1
@@ -318,6 +325,14 @@ INT_TO_FLOAT_ALLOWED = {
 }
 
 
+FLOAT_TO_INT_ALLOWED = {
+    "args::int_from_value": "argument extraction into an integer-typed parameter: whole, finite, in range",
+    "value::cmp_f64_to_i128": "floor value compared with an integer, after both range tests",
+    "value::cmp_f64_to_u128": "floor value compared with an integer, after both range tests",
+    "value::number::Number::as_integer": "whole, finite float in [i128::MIN, 2^127)",
+}
+
+
 def check_conv(crate, rep, cfg):
     for p in CONV_FNS:
         b = crate.one(p)
@@ -370,6 +385,32 @@ def check_conv(crate, rep, cfg):
                 (rep.ok if ok else rep.bad)("C13.CONV", key, b.where(bb, idx), "non-constant 64/128-bit int->float cast only in the reviewed conversion functions [%s]" %
                                             INT_TO_FLOAT_ALLOWED.get(root, "UNLISTED") + ("" if ok else " — VIOLATED"))
     rep.floor("C13.CONV", "non-constant wide int->float casts (value, vm, args) [%s]" % cfg, n, 5)
+    # crate-wide: a float->int `as` saturates (and maps NaN to 0); only in the reviewed functions, each behind its two range tests
+    m = 0
+    for b in crate.bodies.values():
+        if b.kind == "const":
+            continue
+        ef = None
+        for bb, idx, rv in casts(b):
+            if rv["ck"] != "FloatToInt":
+                continue
+            m += 1
+            root = crate.root_of(b).path
+            listed = root in FLOAT_TO_INT_ALLOWED
+            if ef is None:
+                ef = EdgeFacts(b, crate)
+            guards = 0
+            for sb in sorted(b.reachable):
+                if b.term(sb)["k"] != "switch" or not b.dominates(sb, bb) or sb == bb:
+                    continue
+                for tgt, fl in ef.facts_for_switch(sb).items():
+                    for f in fl:
+                        if f[0] == "cmp" and f[1] in ("Lt", "Ge", "Le", "Gt") and b.dominates(tgt, bb) and tgt != sb:
+                            guards += 1
+            ok = listed and guards >= 2
+            rep.add("C13.CONV", "C13.CONV:float-to-int:%s" % root, ok, b.where(bb, idx), "float->int cast only in the reviewed functions [%s], behind two range comparisons" %
+                    FLOAT_TO_INT_ALLOWED.get(root, "UNLISTED") + ("" if ok else " — VIOLATED: %s" % ("unlisted function" if not listed else "%d dominating range tests" % guards)))
+    rep.floor("C13.CONV", "float->int casts in the crate [%s]" % cfg, m, 4)
 
 
 VM_OPS = {"Mul": "mul", "Div": "div", "FloorDiv": "floor_div", "Mod": "rem", "Plus": "add", "Minus": "sub", "Power": "pow", "Negative": "negate"}
